@@ -6,7 +6,7 @@ Import ListNotations.
 
 (* ---------- decidable equalities used by the reflective checkers ---------- *)
 Lemma dir_eqb_eq a b : dir_eqb a b = true -> a = b.
-Proof. destruct a, b; simpl; try discriminate; auto. intros H. apply Nat.eqb_eq in H. now subst. Qed.
+Proof. destruct a, b; simpl; try discriminate; auto; intros H; apply Nat.eqb_eq in H; now subst. Qed.
 
 Lemma arg_eqb_eq a b : arg_eqb a b = true -> a = b.
 Proof.
@@ -27,35 +27,34 @@ Section ProcessProofs.
   Variables C R : Type.
   Variable run : C -> option R.
   Variable hash : nat -> Z.
+  Variable resolve : dir -> nat -> nat.
+  Variable runh : nat -> C -> option R.
   Variable K : Type.
   Variable keq : K -> K -> bool.
   Variable keyof : nat -> option C -> K.
 
   Notation state := (state C R K).
   Notation event := (event C R K).
-  Notation client_get := (client_get C R run hash K keq keyof).
-  Notation cli_run := (cli_run C R run hash K).
-  Notation main_run := (main_run C R run K).
-  Notation step := (step C R run hash K keq keyof).
-  Notation trace := (trace C R run hash K keq keyof).
+  Notation client_get := (client_get C R run hash resolve K keq keyof).
+  Notation cli_run := (cli_run C R run hash resolve K).
+  Notation hip_get := (hip_get C R resolve runh K).
+  Notation step := (step C R run hash resolve runh K keq keyof).
+  Notation trace := (trace C R run hash resolve runh K keq keyof).
   Notation expected := (expected C R run).
-  Notation key p st := (keyof p (fs_lookup p (files st))).
+  Notation expected_with := (expected_with C R).
+  Notation key p st := (keyof p (fs_lookup (resolve (cwd st) p) (files st))).
 
-  (* ---------- shape of one client call ---------- *)
-  Lemma nth1_client_argv p k : nth_error [AEmpty; AIn p; AOut k] 1 = Some (AIn p).
-  Proof. reflexivity. Qed.
-
-  (* every way a client call can go *)
+  (* every way a client call can go; the file that is RUN is the one the path names in the source directory *)
   Lemma client_get_cases fixed st ci p :
     (nth_error (clients st) ci = None /\ client_get fixed st ci p = (st, NoSuchClient))
     \/ (exists cl r, nth_error (clients st) ci = Some cl /\ caching cl = true
                      /\ cache_lookup keq (key p st) (cache cl) = Some r /\ client_get fixed st ci p = (st, Returned r true))
     \/ (exists cl, nth_error (clients st) ci = Some cl
                    /\ (caching cl = true -> cache_lookup keq (key p st) (cache cl) = None)
-                   /\ ((expected (files st) p = None
+                   /\ ((expected (files st) (resolve DSrc p) = None
                         /\ client_get fixed st ci p =
                            (if fixed then st else mkState DSrc [AEmpty; AIn p; AOut (hash p)] (files st) (clients st), Raised))
-                       \/ (exists r, expected (files st) p = Some r
+                       \/ (exists r, expected (files st) (resolve DSrc p) = Some r
                             /\ client_get fixed st ci p =
                                (mkState (cwd st) (argv st) (files st)
                                   (replace_nth ci (if caching cl then mkClient true ((key p st, r) :: cache cl) else cl)
@@ -68,11 +67,13 @@ Section ProcessProofs.
     - destruct (cache_lookup keq (key p st) (cache cl)) as [r|] eqn:Hl.
       + left. exists cl, r. auto.
       + right. exists cl. split; [reflexivity|]. split; [auto|].
-        unfold Process.main_run. simpl. destruct (expected (files st) p) as [r|] eqn:He.
+        unfold Process.main_run, Process.prog_run. simpl. fold (expected (files st) (resolve DSrc p)).
+        destruct (expected (files st) (resolve DSrc p)) as [r|] eqn:He.
         * right. exists r. split; [reflexivity|]. destruct st; simpl in *; rewrite ?Hc; reflexivity.
         * left. split; [reflexivity|]. destruct fixed; destruct st; reflexivity.
     - right. exists cl. split; [reflexivity|]. split; [intros X; congruence|].
-      unfold Process.main_run. simpl. destruct (expected (files st) p) as [r|] eqn:He.
+      unfold Process.main_run, Process.prog_run. simpl. fold (expected (files st) (resolve DSrc p)).
+      destruct (expected (files st) (resolve DSrc p)) as [r|] eqn:He.
       + right. exists r. split; [reflexivity|]. destruct st; simpl in *; rewrite ?Hc; reflexivity.
       + left. split; [reflexivity|]. destruct fixed; destruct st; reflexivity.
   Qed.
@@ -80,8 +81,14 @@ Section ProcessProofs.
   Lemma cli_run_spec st p :
     cli_run st p =
       (mkState (cwd st) [AUser 0; AIn p; AOut (hash p)] (files st) (clients st),
-       match expected (files st) p with Some r => Returned r false | None => Raised end).
-  Proof. unfold Process.cli_run, Process.main_run. simpl. destruct st; reflexivity. Qed.
+       match expected (files st) (resolve (cwd st) p) with Some r => Returned r false | None => Raised end).
+  Proof. unfold Process.cli_run. destruct st; reflexivity. Qed.
+
+  (* a HIP-RA request leaves the whole state as it was, whether it returns or raises *)
+  Lemma hip_get_spec st k p :
+    hip_get st k p =
+      (st, match expected_with (runh k) (files st) (resolve (DPkg k) p) with Some r => Returned r false | None => Raised end).
+  Proof. unfold Process.hip_get, Process.prog_run. simpl. destruct st; reflexivity. Qed.
 
   (* ---------- RESTORE ---------- *)
   Definition restored (e : event) : Prop :=
@@ -108,12 +115,17 @@ Section ProcessProofs.
       mkEvent st o (fst (step fixed st o)) (snd (step fixed st o)) :: trace fixed (fst (step fixed st o)) ops.
   Proof. simpl. destruct (step fixed st o); reflexivity. Qed.
 
+  Definition is_client_run (o : op C) : bool := match o with Get _ _ | HipGet _ _ => true | _ => false end.
+
+  (* every request through a GEOPHIRES or a HIP-RA client, hit, success or failure *)
   Theorem trace_restore : forall ops st,
-    Forall (fun e => is_get (eop e) = true -> restored e) (trace true st ops).
+    Forall (fun e => is_client_run (eop e) = true -> restored e) (trace true st ops).
   Proof.
     induction ops as [|o ops IH]; intros st; [constructor|].
     rewrite trace_cons. constructor; [|apply IH].
-    unfold restored; simpl. destruct o; simpl; try discriminate. intros _. apply client_get_restore.
+    unfold restored. destruct o as [ci p|p c|p|d|a|b|p|k p]; cbn [eop after before is_client_run]; try discriminate; intros _.
+    - change (step true st (Get ci p)) with (client_get true st ci p). apply client_get_restore.
+    - change (step true st (HipGet k p)) with (hip_get st k p). rewrite hip_get_spec. simpl. auto.
   Qed.
 
   Theorem trace_restore_pinned_partial : forall ops st,
@@ -122,6 +134,16 @@ Section ProcessProofs.
     induction ops as [|o ops IH]; intros st; [constructor|].
     rewrite trace_cons. constructor; [|apply IH].
     unfold restored; simpl. destruct o; simpl; try discriminate. intros _. apply client_get_pinned_restore.
+  Qed.
+
+  (* the HIP-RA clients (restore in a `finally` in the pinned tree already): nothing at all changes *)
+  Theorem trace_hip_frame : forall fixed ops st,
+    Forall (fun e => forall k p, eop e = HipGet k p -> after e = before e) (trace fixed st ops).
+  Proof.
+    induction ops as [|o ops IH]; intros st; [constructor|].
+    rewrite trace_cons. constructor; [|apply IH].
+    simpl. intros k p E. subst o. change (step fixed st (HipGet k p)) with (hip_get st k p).
+    rewrite hip_get_spec. reflexivity.
   Qed.
 
   (* the command line entry point gives the working directory back on both paths, and does not touch argv *)
@@ -137,16 +159,20 @@ Section ProcessProofs.
 
   (* consequence for whole histories: if nobody but runs touches cwd/argv they are the same at the end *)
   Definition only_runs_and_files (o : op C) : bool :=
-    match o with Get _ _ | Write _ _ | Delete _ | NewClient _ => true | _ => false end.
+    match o with Get _ _ | HipGet _ _ | Write _ _ | Delete _ | NewClient _ => true | _ => false end.
 
   Theorem final_restore : forall ops st,
     forallb only_runs_and_files ops = true ->
-    cwd (final C R run hash K keq keyof true st ops) = cwd st /\ argv (final C R run hash K keq keyof true st ops) = argv st.
+    cwd (final C R run hash resolve runh K keq keyof true st ops) = cwd st
+    /\ argv (final C R run hash resolve runh K keq keyof true st ops) = argv st.
   Proof.
     unfold final. induction ops as [|o ops IH]; intros st H; simpl; [auto|].
     simpl in H. apply andb_true_iff in H as [Ho H].
     destruct (IH (fst (step true st o)) H) as [E1 E2]. rewrite E1, E2.
-    destruct o; simpl in Ho; try discriminate; simpl; auto. apply client_get_restore.
+    destruct o as [ci p|p c|p|d|a|b|p|k p]; simpl in Ho; try discriminate;
+      [|simpl; auto|simpl; auto|simpl; auto|].
+    - change (step true st (Get ci p)) with (client_get true st ci p). apply client_get_restore.
+    - change (step true st (HipGet k p)) with (hip_get st k p). rewrite hip_get_spec. simpl. auto.
   Qed.
 
   (* ---------- FRAME: a request changes nothing but the cache of the client it went through ---------- *)
@@ -178,20 +204,42 @@ Section ProcessProofs.
     - intros j Hj. now apply replace_nth_other.
   Qed.
 
-  (* ---------- REFINEMENT: a returned result is the run of the content the file has at request time ---------- *)
-  Definition req_path (o : op C) : option nat :=
-    match o with Get _ p | Cli p => Some p | _ => None end.
+  (* ---------- REFINEMENT: a returned result is the run of the content that the file the request names AS THE
+     CALLER SEES IT (resolved against the caller's working directory at request time) has at request time ------ *)
+  Definition request (o : op C) : option ((C -> option R) * nat) :=
+    match o with
+    | Get _ p | Cli p => Some (run, p)
+    | HipGet k p => Some (runh k, p)
+    | _ => None
+    end.
   Definition wpath (o : op C) : option nat :=
     match o with Write p _ | Delete p => Some p | _ => None end.
 
   Definition refines_event (e : event) : Prop :=
-    forall p r h, req_path (eop e) = Some p -> eout e = Returned r h -> expected (files (before e)) p = Some r.
+    forall orc p r h, request (eop e) = Some (orc, p) -> eout e = Returned r h ->
+    expected_with orc (files (before e)) (resolve (cwd (before e)) p) = Some r.
+
+  (* the request path names the same file for the caller and for the program (which chdirs to its own directory
+     before opening it): true of every absolute path *)
+  Definition resolves_same (e : event) : Prop :=
+    (forall ci p, eop e = Get ci p -> resolve (cwd (before e)) p = resolve DSrc p)
+    /\ (forall k p, eop e = HipGet k p -> resolve (cwd (before e)) p = resolve (DPkg k) p).
 
   Lemma cli_refines st p :
     refines_event (mkEvent st (Cli p) (fst (cli_run st p)) (snd (cli_run st p))).
   Proof.
-    rewrite cli_run_spec. intros q r h Hq H. simpl in Hq, H |- *. inversion Hq; subst q.
-    destruct (expected (files st) p) as [r0|] eqn:He; inversion H; subst; reflexivity.
+    rewrite cli_run_spec. intros orc q r h Hq H. simpl in Hq, H |- *. inversion Hq; subst orc q.
+    fold (expected (files st) (resolve (cwd st) p)).
+    destruct (expected (files st) (resolve (cwd st) p)) as [r0|] eqn:He; inversion H; subst; reflexivity.
+  Qed.
+
+  Lemma hip_refines st k p :
+    resolve (cwd st) p = resolve (DPkg k) p ->
+    refines_event (mkEvent st (HipGet k p) (fst (hip_get st k p)) (snd (hip_get st k p))).
+  Proof.
+    intros Hrs. rewrite hip_get_spec. intros orc q r h Hq H. simpl in Hq, H |- *. inversion Hq; subst orc q.
+    rewrite Hrs.
+    destruct (expected_with (runh k) (files st) (resolve (DPkg k) p)) as [r0|] eqn:He; inversion H; subst; reflexivity.
   Qed.
 
   (* with caching off there is nothing to go stale: no hypothesis on writes, none on the key *)
@@ -199,32 +247,39 @@ Section ProcessProofs.
 
   Lemma step_refines_nocache fixed st o :
     nocache st -> (forall b, o = NewClient b -> b = false) ->
+    resolves_same (mkEvent st o (fst (step fixed st o)) (snd (step fixed st o))) ->
     refines_event (mkEvent st o (fst (step fixed st o)) (snd (step fixed st o)))
     /\ nocache (fst (step fixed st o)).
   Proof.
-    intros Hnc Hb. destruct o as [ci p|p c|p|d|a|b|p];
-      [simpl|simpl|simpl|simpl|simpl|simpl|change (step fixed st (Cli p)) with (cli_run st p)];
-      try (split; [intros q r h H; discriminate|exact Hnc]).
-    - destruct (client_get_cases fixed st ci p)
+    intros Hnc Hb [Hrg Hrh]. simpl in Hrg, Hrh. destruct o as [ci p|p c|p|d|a|b|p|k p];
+      [simpl|simpl|simpl|simpl|simpl|simpl|change (step fixed st (Cli p)) with (cli_run st p)
+       |change (step fixed st (HipGet k p)) with (hip_get st k p)];
+      try (split; [intros orc q r h H; discriminate|exact Hnc]).
+    - specialize (Hrg ci p eq_refl).
+      destruct (client_get_cases fixed st ci p)
         as [[_ E]|[(cl & r & Hn & Hc & Hl & E)|(cl & Hn & Hmiss & [[He E]|(r & He & E)])]]; rewrite E; simpl.
-      + split; [|exact Hnc]. intros q r h _ H. discriminate.
+      + split; [|exact Hnc]. intros orc q r h _ H. discriminate.
       + rewrite (Hnc cl (nth_error_In _ _ Hn)) in Hc. discriminate.
-      + split; [intros q r h _ H; discriminate|]. destruct fixed; exact Hnc.
+      + split; [intros orc q r h _ H; discriminate|]. destruct fixed; exact Hnc.
       + split.
-        * intros q r' h Hq H. simpl in Hq, H. inversion Hq; subst q. inversion H; subst r'. exact He.
+        * intros orc q r' h Hq H. simpl in Hq, H |- *. inversion Hq; subst orc q. inversion H; subst r'.
+          rewrite Hrg. exact He.
         * intros cl0 Hin0. simpl in Hin0. apply replace_nth_In in Hin0 as [E0|Hin0]; [|auto].
           rewrite (Hnc cl (nth_error_In _ _ Hn)) in E0. subst cl0. apply (Hnc cl (nth_error_In _ _ Hn)).
-    - split; [intros q r h H; discriminate|].
+    - split; [intros orc q r h H; discriminate|].
       intros cl Hcl. simpl in Hcl. apply in_app_or in Hcl as [Hcl|[E|[]]]; [auto|]. subst cl. simpl. now apply Hb.
     - split; [apply cli_refines|]. rewrite cli_run_spec. exact Hnc.
+    - split; [apply hip_refines; now apply Hrh|]. rewrite hip_get_spec. exact Hnc.
   Qed.
 
   Theorem trace_refines_nocache fixed : forall ops st,
     nocache st -> (forall b, In (NewClient b) ops -> b = false) ->
+    Forall resolves_same (trace fixed st ops) ->
     Forall refines_event (trace fixed st ops).
   Proof.
-    induction ops as [|o ops IH]; intros st Hnc Hb; [constructor|].
-    rewrite trace_cons. destruct (step_refines_nocache fixed st o Hnc) as [H1 H2].
+    induction ops as [|o ops IH]; intros st Hnc Hb Hrs; [constructor|].
+    rewrite trace_cons in *. inversion Hrs as [|e l Hr1 Hr2]; subst.
+    destruct (step_refines_nocache fixed st o Hnc) as [H1 H2]; auto.
     - intros b ->. apply Hb. now left.
     - constructor; [exact H1|]. apply IH; auto. intros b H. apply Hb. now right.
   Qed.
@@ -254,43 +309,50 @@ Section ProcessProofs.
 
   Lemma step_refines_sound_key fixed st o :
     key_sound -> entries_ok st ->
+    resolves_same (mkEvent st o (fst (step fixed st o)) (snd (step fixed st o))) ->
     refines_event (mkEvent st o (fst (step fixed st o)) (snd (step fixed st o)))
     /\ entries_ok (fst (step fixed st o)).
   Proof.
-    intros Hks Hok. destruct o as [ci p|p c|p|d|a|b|p];
-      [simpl|simpl|simpl|simpl|simpl|simpl|change (step fixed st (Cli p)) with (cli_run st p)];
-      try (split; [intros q r h H; discriminate|eapply entries_ok_same; [|exact Hok]; reflexivity]).
-    - destruct (client_get_cases fixed st ci p)
+    intros Hks Hok [Hrg Hrh]. simpl in Hrg, Hrh. destruct o as [ci p|p c|p|d|a|b|p|k p];
+      [simpl|simpl|simpl|simpl|simpl|simpl|change (step fixed st (Cli p)) with (cli_run st p)
+       |change (step fixed st (HipGet k p)) with (hip_get st k p)];
+      try (split; [intros orc q r h H; discriminate|eapply entries_ok_same; [|exact Hok]; reflexivity]).
+    - specialize (Hrg ci p eq_refl).
+      destruct (client_get_cases fixed st ci p)
         as [[_ E]|[(cl & r & Hn & Hc & Hl & E)|(cl & Hn & Hmiss & [[He E]|(r & He & E)])]]; rewrite E; simpl.
-      + split; [|exact Hok]. intros q r h _ H. discriminate.
-      + split; [|exact Hok]. intros q r' h Hq H. simpl in Hq, H. inversion Hq; subst q. inversion H; subst r'.
+      + split; [|exact Hok]. intros orc q r h _ H. discriminate.
+      + split; [|exact Hok]. intros orc q r' h Hq H. simpl in Hq, H |- *. inversion Hq; subst orc q. inversion H; subst r'.
         destruct (cache_lookup_some _ _ _ Hl) as (k' & Hi & Hk).
         destruct (Hok cl (nth_error_In _ _ Hn) Hc k' r Hi) as (p' & c' & -> & Hr).
-        unfold Process.expected. change (run_opt (fs_lookup p (files st)) = Some r).
+        change (run_opt (fs_lookup (resolve (cwd st) p) (files st)) = Some r).
         rewrite (Hks _ _ _ _ Hk). exact Hr.
-      + split; [intros q r h _ H; discriminate|].
+      + split; [intros orc q r h _ H; discriminate|].
         destruct fixed; [exact Hok|]. eapply entries_ok_same; [|exact Hok]; reflexivity.
       + split.
-        * intros q r' h Hq H. simpl in Hq, H. inversion Hq; subst q. inversion H; subst r'. exact He.
+        * intros orc q r' h Hq H. simpl in Hq, H |- *. inversion Hq; subst orc q. inversion H; subst r'.
+          rewrite Hrg. exact He.
         * intros cl0 Hin0 Hc0 k r0 Hi0. simpl in Hin0.
           apply replace_nth_In in Hin0 as [E0|Hin0]; [|exact (Hok cl0 Hin0 Hc0 k r0 Hi0)].
           destruct (caching cl) eqn:Hc.
           -- subst cl0. simpl in Hi0. destruct Hi0 as [Hi0|Hi0].
-             ++ inversion Hi0; subst. exists p, (fs_lookup p (files st)). split; [reflexivity|exact He].
+             ++ inversion Hi0; subst. exists p, (fs_lookup (resolve (cwd st) p) (files st)). split; [reflexivity|].
+                rewrite Hrg. exact He.
              ++ exact (Hok cl (nth_error_In _ _ Hn) Hc k r0 Hi0).
           -- subst cl0. congruence.
-    - split; [intros q r h H; discriminate|].
+    - split; [intros orc q r h H; discriminate|].
       intros cl Hcl Hc k r Hi. simpl in Hcl. apply in_app_or in Hcl as [Hcl|[E|[]]].
       + exact (Hok cl Hcl Hc k r Hi).
       + subst cl. destruct Hi.
     - split; [apply cli_refines|]. rewrite cli_run_spec. eapply entries_ok_same; [|exact Hok]; reflexivity.
+    - split; [apply hip_refines; now apply Hrh|]. rewrite hip_get_spec. exact Hok.
   Qed.
 
   Theorem trace_refines_sound_key fixed : key_sound -> forall ops st,
-    entries_ok st -> Forall refines_event (trace fixed st ops).
+    entries_ok st -> Forall resolves_same (trace fixed st ops) -> Forall refines_event (trace fixed st ops).
   Proof.
-    intros Hks. induction ops as [|o ops IH]; intros st Hok; [constructor|].
-    rewrite trace_cons. destruct (step_refines_sound_key fixed st o Hks Hok) as [H1 H2].
+    intros Hks. induction ops as [|o ops IH]; intros st Hok Hrs; [constructor|].
+    rewrite trace_cons in *. inversion Hrs as [|e l Hr1 Hr2]; subst.
+    destruct (step_refines_sound_key fixed st o Hks Hok Hr1) as [H1 H2].
     constructor; [exact H1|]. now apply IH.
   Qed.
 
@@ -298,8 +360,17 @@ Section ProcessProofs.
   Proof. intros cl []. Qed.
 
   Theorem trace_refines_sound_key_init fixed : key_sound -> forall ops d a f,
-    Forall refines_event (trace fixed (init d a f) ops).
+    Forall resolves_same (trace fixed (init d a f) ops) -> Forall refines_event (trace fixed (init d a f) ops).
   Proof. intros Hks ops d a f. apply trace_refines_sound_key; [exact Hks|apply init_entries_ok]. Qed.
+
+  (* every path absolute => every event resolves the same for caller and program *)
+  Lemma absolute_resolves_same fixed : (forall d p, resolve d p = p) -> forall ops st,
+    Forall resolves_same (trace fixed st ops).
+  Proof.
+    intros Ha. induction ops as [|o ops IH]; intros st; [constructor|].
+    rewrite trace_cons. constructor; [|apply IH].
+    split; intros; rewrite !Ha; reflexivity.
+  Qed.
 End ProcessProofs.
 
 (* the repaired cache key (path hash AND content) is sound whenever content equality is *)
@@ -312,10 +383,12 @@ Proof.
   now rewrite (Hc x y H).
 Qed.
 
-Theorem trace_refines_content_key C R (run : C -> option R) hash (ceq : C -> C -> bool) fixed :
+Theorem trace_refines_content_key C R (run : C -> option R) hash resolve runh (ceq : C -> C -> bool) fixed :
   (forall a b, ceq a b = true -> a = b) -> forall ops d a f,
-  Forall (refines_event C R run (Z * option C))
-         (trace C R run hash (Z * option C) (content_keq ceq) (content_key hash) fixed (init d a f) ops).
+  Forall (resolves_same C R resolve (Z * option C))
+         (trace C R run hash resolve runh (Z * option C) (content_keq ceq) (content_key hash) fixed (init d a f) ops) ->
+  Forall (refines_event C R run resolve runh (Z * option C))
+         (trace C R run hash resolve runh (Z * option C) (content_keq ceq) (content_key hash) fixed (init d a f) ops).
 Proof.
   intros Hc ops d a f. apply trace_refines_sound_key; [now apply content_key_sound|apply init_entries_ok].
 Qed.
@@ -325,25 +398,29 @@ Section PathKeyed.
   Variables C R : Type.
   Variable run : C -> option R.
   Variable hash : nat -> Z.
+  Variable resolve : dir -> nat -> nat.
+  Variable runh : nat -> C -> option R.
 
   Notation state := (state C R Z).
   Notation event := (event C R Z).
-  Notation step := (step C R run hash Z Z.eqb (path_key hash)).
-  Notation trace := (trace C R run hash Z Z.eqb (path_key hash)).
+  Notation step := (step C R run hash resolve runh Z Z.eqb (path_key hash)).
+  Notation trace := (trace C R run hash resolve runh Z Z.eqb (path_key hash)).
   Notation expected := (expected C R run).
-  Notation refines_event := (refines_event C R run Z).
-  Notation cli_run := (cli_run C R run hash Z).
+  Notation refines_event := (refines_event C R run resolve runh Z).
+  Notation resolves_same := (resolves_same C R resolve Z).
+  Notation cli_run := (cli_run C R run hash resolve Z).
+  Notation hip_get := (hip_get C R resolve runh Z).
 
-  (* no file is written or deleted while a caching client holds a result under that file's key *)
+  (* no file is written or deleted while a caching client holds a result under the key of a path that names it *)
   Definition write_safe (e : event) : Prop :=
-    forall p, wpath C (eop e) = Some p ->
+    forall f, wpath C (eop e) = Some f -> forall p, resolve DSrc p = f ->
     forall cl, In cl (clients (before e)) -> caching cl = true -> cache_lookup Z.eqb (hash p) (cache cl) = None.
 
   (* invariant: every cached entry is the run of the current content of a file with that key *)
   Definition fresh (ps : list nat) (st : state) : Prop :=
     forall cl, In cl (clients st) -> caching cl = true ->
     forall k r, cache_lookup Z.eqb k (cache cl) = Some r ->
-    exists p, In p ps /\ hash p = k /\ expected (files st) p = Some r.
+    exists p, In p ps /\ hash p = k /\ expected (files st) (resolve DSrc p) = Some r.
 
   Definition inj_on (ps : list nat) : Prop :=
     forall p q, In p ps -> In q ps -> hash p = hash q -> p = q.
@@ -354,30 +431,34 @@ Section PathKeyed.
 
   Lemma expected_write f p c q : q <> p -> expected ((p, c) :: f) q = expected f q.
   Proof.
-    intros H. unfold Process.expected. simpl. destruct (Nat.eqb_spec q p); [contradiction|reflexivity].
+    intros H. unfold Process.expected, Process.expected_with. simpl.
+    destruct (Nat.eqb_spec q p); [contradiction|reflexivity].
   Qed.
 
   Lemma step_refines ps fixed st o :
     inj_on ps -> fresh ps st -> (forall ci p, o = Get ci p -> In p ps) ->
     write_safe (mkEvent st o (fst (step fixed st o)) (snd (step fixed st o))) ->
+    resolves_same (mkEvent st o (fst (step fixed st o)) (snd (step fixed st o))) ->
     refines_event (mkEvent st o (fst (step fixed st o)) (snd (step fixed st o)))
     /\ fresh ps (fst (step fixed st o)).
   Proof.
-    intros Hinj Hfr Hin Hws. destruct o as [ci p|p c|p|d|a|b|p];
-      [simpl|simpl|simpl|simpl|simpl|simpl|change (step fixed st (Cli p)) with (cli_run st p)].
+    intros Hinj Hfr Hin Hws [Hrg Hrh]. simpl in Hrg, Hrh. destruct o as [ci p|p c|p|d|a|b|p|k p];
+      [simpl|simpl|simpl|simpl|simpl|simpl|change (step fixed st (Cli p)) with (cli_run st p)
+       |change (step fixed st (HipGet k p)) with (hip_get st k p)].
     - (* Get *)
-      specialize (Hin ci p eq_refl).
-      destruct (client_get_cases C R run hash Z Z.eqb (path_key hash) fixed st ci p)
+      specialize (Hin ci p eq_refl). specialize (Hrg ci p eq_refl).
+      destruct (client_get_cases C R run hash resolve Z Z.eqb (path_key hash) fixed st ci p)
         as [[_ E]|[(cl & r & Hn & Hc & Hl & E)|(cl & Hn & Hmiss & [[He E]|(r & He & E)])]];
         unfold path_key in *; rewrite E; simpl.
-      + split; [|exact Hfr]. intros q r h _ H. discriminate.
-      + split; [|exact Hfr]. intros q r' h Hq H. simpl in Hq, H. inversion Hq; subst q. inversion H; subst r'.
+      + split; [|exact Hfr]. intros orc q r h _ H. discriminate.
+      + split; [|exact Hfr]. intros orc q r' h Hq H. simpl in Hq, H |- *. inversion Hq; subst orc q. inversion H; subst r'.
         destruct (Hfr cl (nth_error_In _ _ Hn) Hc _ _ Hl) as (p' & Hp' & Hh & Hex).
-        rewrite <- (Hinj p' p Hp' Hin Hh). exact Hex.
-      + split; [intros q r h _ H; discriminate|].
+        rewrite Hrg. rewrite <- (Hinj p' p Hp' Hin Hh). exact Hex.
+      + split; [intros orc q r h _ H; discriminate|].
         destruct fixed; [exact Hfr|]. eapply fresh_same; [| |exact Hfr]; reflexivity.
       + split.
-        * intros q r' h Hq H. simpl in Hq, H. inversion Hq; subst q. inversion H; subst r'. exact He.
+        * intros orc q r' h Hq H. simpl in Hq, H |- *. inversion Hq; subst orc q. inversion H; subst r'.
+          rewrite Hrg. exact He.
         * intros cl0 Hin0 Hc0 k r0 Hl0. simpl in Hin0 |- *.
           apply replace_nth_In in Hin0 as [E0|Hin0].
           -- destruct (caching cl) eqn:Hc.
@@ -387,34 +468,37 @@ Section PathKeyed.
              ++ subst cl0. congruence.
           -- exact (Hfr cl0 Hin0 Hc0 k r0 Hl0).
     - (* Write *)
-      split; [intros q r h H; discriminate|].
+      split; [intros orc q r h H; discriminate|].
       intros cl Hcl Hc k r Hl. simpl in Hcl |- *.
       destruct (Hfr cl Hcl Hc k r Hl) as (p' & Hp' & Hh & Hex). exists p'. split; [auto|]. split; [auto|].
-      rewrite expected_write; [exact Hex|]. intros ->.
-      specialize (Hws p eq_refl cl Hcl Hc). simpl in Hws. rewrite <- Hh in Hl. congruence.
+      rewrite expected_write; [exact Hex|]. intros E.
+      specialize (Hws p eq_refl p' E cl Hcl Hc). simpl in Hws. rewrite <- Hh in Hl. congruence.
     - (* Delete *)
-      split; [intros q r h H; discriminate|].
+      split; [intros orc q r h H; discriminate|].
       intros cl Hcl Hc k r Hl. simpl in Hcl |- *.
       destruct (Hfr cl Hcl Hc k r Hl) as (p' & Hp' & Hh & Hex). exists p'. split; [auto|]. split; [auto|].
-      rewrite expected_write; [exact Hex|]. intros ->.
-      specialize (Hws p eq_refl cl Hcl Hc). simpl in Hws. rewrite <- Hh in Hl. congruence.
-    - split; [intros q r h H; discriminate|]. eapply fresh_same; [| |exact Hfr]; reflexivity.
-    - split; [intros q r h H; discriminate|]. eapply fresh_same; [| |exact Hfr]; reflexivity.
+      rewrite expected_write; [exact Hex|]. intros E.
+      specialize (Hws p eq_refl p' E cl Hcl Hc). simpl in Hws. rewrite <- Hh in Hl. congruence.
+    - split; [intros orc q r h H; discriminate|]. eapply fresh_same; [| |exact Hfr]; reflexivity.
+    - split; [intros orc q r h H; discriminate|]. eapply fresh_same; [| |exact Hfr]; reflexivity.
     - (* NewClient *)
-      split; [intros q r h H; discriminate|].
+      split; [intros orc q r h H; discriminate|].
       intros cl Hcl Hc k r Hl. simpl in Hcl |- *. apply in_app_or in Hcl as [Hcl|[E|[]]].
       + exact (Hfr cl Hcl Hc k r Hl).
       + subst cl. simpl in Hl. discriminate.
     - (* Cli *)
       split; [apply cli_refines|]. rewrite cli_run_spec. eapply fresh_same; [| |exact Hfr]; reflexivity.
+    - (* HipGet *)
+      split; [apply hip_refines; now apply Hrh|]. rewrite hip_get_spec. exact Hfr.
   Qed.
 
   Theorem trace_refines ps fixed : inj_on ps -> forall ops st,
     fresh ps st -> (forall ci p, In (Get ci p) ops -> In p ps) ->
-    Forall write_safe (trace fixed st ops) -> Forall refines_event (trace fixed st ops).
+    Forall write_safe (trace fixed st ops) -> Forall resolves_same (trace fixed st ops) ->
+    Forall refines_event (trace fixed st ops).
   Proof.
-    intros Hinj. induction ops as [|o ops IH]; intros st Hfr Hin Hws; [constructor|].
-    rewrite trace_cons in *. inversion Hws as [|e l Hw1 Hw2]; subst.
+    intros Hinj. induction ops as [|o ops IH]; intros st Hfr Hin Hws Hrs; [constructor|].
+    rewrite trace_cons in *. inversion Hws as [|e l Hw1 Hw2]; subst. inversion Hrs as [|e l Hr1 Hr2]; subst.
     destruct (step_refines ps fixed st o Hinj Hfr) as [H1 H2]; auto.
     - intros ci p ->. apply (Hin ci p). now left.
     - constructor; [exact H1|]. apply IH; auto. intros ci p H. apply (Hin ci p). now right.
@@ -425,27 +509,30 @@ Section PathKeyed.
 
   Theorem trace_refines_init ps fixed : inj_on ps -> forall ops d a f,
     (forall ci p, In (Get ci p) ops -> In p ps) ->
-    Forall write_safe (trace fixed (init d a f) ops) -> Forall refines_event (trace fixed (init d a f) ops).
+    Forall write_safe (trace fixed (init d a f) ops) -> Forall resolves_same (trace fixed (init d a f) ops) ->
+    Forall refines_event (trace fixed (init d a f) ops).
   Proof. intros Hinj ops d a f. apply trace_refines; auto. apply init_fresh. Qed.
 
   (* ---------- the result is a function of the content, whatever the history ---------- *)
   Definition safe_history (fixed : bool) (ps : list nat) (st : state) (ops : list (op C)) : Prop :=
-    inj_on ps /\ fresh ps st /\ (forall ci p, In (Get ci p) ops -> In p ps) /\ Forall write_safe (trace fixed st ops).
+    inj_on ps /\ fresh ps st /\ (forall ci p, In (Get ci p) ops -> In p ps)
+    /\ Forall write_safe (trace fixed st ops) /\ Forall resolves_same (trace fixed st ops).
 
-  Theorem result_function_of_content fixed1 fixed2 ps1 ps2 st1 st2 ops1 ops2 e1 e2 p1 p2 r1 r2 h1 h2 :
+  Theorem result_function_of_content fixed1 fixed2 ps1 ps2 st1 st2 ops1 ops2 e1 e2 orc p1 p2 r1 r2 h1 h2 :
     safe_history fixed1 ps1 st1 ops1 -> safe_history fixed2 ps2 st2 ops2 ->
     In e1 (trace fixed1 st1 ops1) -> In e2 (trace fixed2 st2 ops2) ->
-    req_path C (eop e1) = Some p1 -> req_path C (eop e2) = Some p2 ->
+    request C R run runh (eop e1) = Some (orc, p1) -> request C R run runh (eop e2) = Some (orc, p2) ->
     eout e1 = Returned r1 h1 -> eout e2 = Returned r2 h2 ->
-    fs_lookup p1 (files (before e1)) = fs_lookup p2 (files (before e2)) ->
+    fs_lookup (resolve (cwd (before e1)) p1) (files (before e1))
+      = fs_lookup (resolve (cwd (before e2)) p2) (files (before e2)) ->
     r1 = r2.
   Proof.
-    intros (I1 & F1 & G1 & W1) (I2 & F2 & G2 & W2) In1 In2 Q1 Q2 O1 O2 Hf.
-    pose proof (trace_refines ps1 fixed1 I1 ops1 st1 F1 G1 W1) as T1.
-    pose proof (trace_refines ps2 fixed2 I2 ops2 st2 F2 G2 W2) as T2.
+    intros (I1 & F1 & G1 & W1 & S1) (I2 & F2 & G2 & W2 & S2) In1 In2 Q1 Q2 O1 O2 Hf.
+    pose proof (trace_refines ps1 fixed1 I1 ops1 st1 F1 G1 W1 S1) as T1.
+    pose proof (trace_refines ps2 fixed2 I2 ops2 st2 F2 G2 W2 S2) as T2.
     rewrite Forall_forall in T1, T2.
-    pose proof (T1 e1 In1 p1 r1 h1 Q1 O1) as E1. pose proof (T2 e2 In2 p2 r2 h2 Q2 O2) as E2.
-    unfold Process.expected in E1, E2. rewrite Hf in E1. rewrite E1 in E2. now inversion E2.
+    pose proof (T1 e1 In1 orc p1 r1 h1 Q1 O1) as E1. pose proof (T2 e2 In2 orc p2 r2 h2 Q2 O2) as E2.
+    unfold Process.expected_with in E1, E2. rewrite Hf in E1. rewrite E1 in E2. now inversion E2.
   Qed.
 End PathKeyed.
 
@@ -455,7 +542,7 @@ End PathKeyed.
 Definition witness_fail : list (op nat) := [NewClient true; Get 0 7].
 
 Lemma restore_pinned_refuted :
-  exists e, In e (ptrace [0] false (DUser 0) [AUser 0; AUser 1] witness_fail)
+  exists e, In e (ptrace (plain_cfg [0]) false (DUser 0) [AUser 0; AUser 1] witness_fail)
             /\ is_get (eop e) = true
             /\ cwd (after e) = DSrc /\ cwd (before e) = DUser 0
             /\ argv (after e) = [AEmpty; AIn 7; AOut 7%Z] /\ argv (before e) = [AUser 0; AUser 1].
@@ -467,14 +554,14 @@ Qed.
 Lemma restore_fixed_witness :
   forallb (fun e => negb (is_get (eop e)) || (dir_eqb (cwd (after e)) (cwd (before e))
                                               && list_eqb arg_eqb (argv (after e)) (argv (before e))))
-          (ptrace [0] true (DUser 0) [AUser 0; AUser 1] witness_fail) = true.
+          (ptrace (plain_cfg [0]) true (DUser 0) [AUser 0; AUser 1] witness_fail) = true.
 Proof. vm_compute. reflexivity. Qed.
 
 (* [write c0; get; write c1; get] on one caching client: the second result is the run of c0, not of c1 *)
 Definition witness_stale : list (op nat) := [NewClient true; Write 0 0; Get 0 0; Write 0 1; Get 0 0].
 
 Lemma cache_refines_refuted : forall fixed,
-  exists e p r h, In e (ptrace [0; 1] fixed (DUser 0) [] witness_stale)
+  exists e p r h, In e (ptrace (plain_cfg [0; 1]) fixed (DUser 0) [] witness_stale)
             /\ eop e = Get 0 p /\ eout e = Returned r h
             /\ expected nat nat (crun [0; 1]) (files (before e)) p = Some 1 /\ r = 0.
 Proof.
@@ -485,7 +572,8 @@ Qed.
 
 (* a hash collision between two requested paths has the same effect (why [inj_on] is a hypothesis) *)
 Lemma cache_collision_witness :
-  exists e p r h, In e (trace nat nat (crun [0; 1]) (fun _ => 0%Z) Z Z.eqb (path_key (fun _ => 0%Z)) true (init (DUser 0) [] [])
+  exists e p r h, In e (trace nat nat (crun [0; 1]) (fun _ => 0%Z) (cresolve []) (crunh []) Z Z.eqb (path_key (fun _ => 0%Z))
+                          true (init (DUser 0) [] [])
                           [NewClient true; Write 0 0; Write 1 1; Get 0 0; Get 0 1])
             /\ eop e = Get 0 p /\ eout e = Returned r h
             /\ expected nat nat (crun [0; 1]) (files (before e)) p = Some 1 /\ r = 0.
@@ -493,6 +581,24 @@ Proof.
   eexists. exists 1, 0, true. split.
   - do 4 right. left. reflexivity.
   - vm_compute. repeat split.
+Qed.
+
+(* RELATIVE REQUEST PATH: the caller sits in directory 0 where the name 100 is file 60 (content 0); the program
+   chdirs to its own directory, where the same name is file 90 (content 1): with caching OFF the client returns the
+   run of content 1 although the request, as the caller (and GeophiresInputParameters.as_text) sees it, is content 0 *)
+Definition rel_cfg : cfg :=
+  mkCfg [0; 1] [] [(DUser 0, 100, 60); (DSrc, 100, 90)] [(90, Some 1)].
+Definition witness_rel : list (op nat) := [NewClient false; Write 60 0; Get 0 100].
+
+Lemma relative_request_refuted : forall fixed,
+  exists e r h, In e (ptrace rel_cfg fixed (DUser 0) [] witness_rel)
+            /\ eop e = Get 0 100 /\ eout e = Returned r h
+            /\ expected nat nat (crun [0; 1]) (files (before e)) (cresolve (g_rt rel_cfg) (cwd (before e)) 100) = Some 0
+            /\ r = 1.
+Proof.
+  intros fixed. eexists. exists 1, false. split.
+  - do 2 right. left. reflexivity.
+  - destruct fixed; vm_compute; repeat split.
 Qed.
 
 (* ---------- soundness of the reflective checkers run on the implementation's observations ---------- *)
@@ -504,44 +610,41 @@ Proof.
   split; [now apply dir_eqb_eq|]. apply (list_eqb_eq arg_eqb arg_eqb_eq); exact H2.
 Qed.
 
-Lemma check_refines_step_sound okc f o b p :
-  check_refines_step okc f o b = true -> req_path nat o = Some p ->
-  (forall r h, o_out b = Returned r h -> expected nat nat (crun okc) f p = Some r)
-  /\ (o_out b = Raised -> expected nat nat (crun okc) f p = None).
+Lemma check_refines_step_sound g f o b orc p :
+  check_refines_step g f o b = true -> request_of g o = Some (orc, p) ->
+  (forall r h, o_out b = Returned r h ->
+     expected_with nat nat orc f (cresolve (g_rt g) (o_cwd_before b) p) = Some r)
+  /\ (o_out b = Raised -> expected_with nat nat orc f (cresolve (g_rt g) (o_cwd_before b) p) = None).
 Proof.
-  unfold check_refines_step. intros H Hq.
-  assert (E : match o_out b, expected nat nat (crun okc) f p with
-              | Returned r _, Some e => Nat.eqb r e
-              | Returned _ _, None => false
-              | Raised, Some _ => false
-              | _, _ => true end = true).
-  { destruct o; simpl in Hq; inversion Hq; subst; exact H. }
-  clear H. split.
-  - intros r h Ho. rewrite Ho in E. destruct (expected nat nat (crun okc) f p); [|discriminate].
-    apply Nat.eqb_eq in E. now subst.
-  - intros Ho. rewrite Ho in E. destruct (expected nat nat (crun okc) f p); [discriminate|reflexivity].
+  unfold check_refines_step. intros H Hq. rewrite Hq in H. split.
+  - intros r h Ho. rewrite Ho in H.
+    destruct (expected_with nat nat orc f (cresolve (g_rt g) (o_cwd_before b) p)); [|discriminate].
+    apply Nat.eqb_eq in H. now subst.
+  - intros Ho. rewrite Ho in H.
+    destruct (expected_with nat nat orc f (cresolve (g_rt g) (o_cwd_before b) p)); [discriminate|reflexivity].
 Qed.
 
 (* the whole session checker: no code reported => every step passed the three per-step checks *)
-Fixpoint steps_ok {K : Type} (okc : list nat) (f : fs nat) (evs : list (event nat nat K)) (os : list obs) : Prop :=
+Fixpoint steps_ok {K : Type} (g : cfg) (f : fs nat) (evs : list (event nat nat K)) (os : list obs) : Prop :=
   match evs, os with
   | e :: evs', b :: os' =>
-      obs_matches e b = true /\ check_restore_step (eop e) b = true /\ check_refines_step okc f (eop e) b = true
-      /\ steps_ok okc (files_step f (eop e)) evs' os'
+      obs_matches e b = true /\ check_restore_step (eop e) b = true /\ check_refines_step g f (eop e) b = true
+      /\ steps_ok g (files_step f (eop e)) evs' os'
   | [], [] => True
   | _, _ => False
   end.
 
-Lemma session_codes_nil {K : Type} okc : forall (evs : list (event nat nat K)) os i f, session_codes okc i f evs os = [] -> steps_ok okc f evs os.
+Lemma session_codes_nil {K : Type} g : forall (evs : list (event nat nat K)) os i f,
+  session_codes g i f evs os = [] -> steps_ok g f evs os.
 Proof.
   induction evs as [|e evs IH]; destruct os as [|b os]; simpl; intros i f H; auto; try discriminate.
   destruct (obs_matches e b); [|discriminate].
   destruct (check_restore_step (eop e) b); [|discriminate].
-  destruct (check_refines_step okc f (eop e) b); [|discriminate].
+  destruct (check_refines_step g f (eop e) b); [|discriminate].
   simpl in H. repeat split; auto. eapply IH; eauto.
 Qed.
 
-Lemma session_check_sound fixed okc d a ops os :
-  session_check fixed okc d a ops os = [] ->
-  steps_ok okc [] (ptrace okc fixed d a ops) os.
+Lemma session_check_sound fixed g d a ops os :
+  session_check fixed g d a ops os = [] ->
+  steps_ok g (g_files g) (ptrace g fixed d a ops) os.
 Proof. apply session_codes_nil. Qed.
